@@ -174,6 +174,11 @@ def code_pool(c):
     invalid = [100, -7, 1, 2, 3, -2, INT_MAX, -INT_MAX - 1]
     for v in valid + [c["visitContinue"]]:
         invalid += [v - 1, v + 1]
+        # a valid code in the low bits of a wider value is not that code (round-8 seed C17-13: return values masked)
+        if v >= 0:
+            invalid += [v + (1 << k) for k in (13, 15, 16, 17, 24, 30)] + [v | 0x7fff0000]
+        if v > 0:
+            invalid += [-v]
     invalid = [x for x in invalid if x not in valid and x != c["visitContinue"] and -INT_MAX - 1 <= x <= INT_MAX]
     return valid, sorted(set(invalid))
 
